@@ -141,6 +141,17 @@ class Graph(object):
                     b = None if x is None else (not x)
                 if b is None and s.rv.k == "agg" and s.rv.j.get("ak") == "adt" and "vidx" in s.rv.j:
                     b = ("tag", s.rv.j["vidx"])     # enum-typed flag: remember which variant was stored
+                    if len(s.rv.ops) == 1 and s.rv.ops[0].place is not None and s.rv.ops[0].place.is_local() \
+                            and s.rv.ops[0].place.local in self.flags:
+                        inner = val[self.flags.index(s.rv.ops[0].place.local)]
+                        if isinstance(inner, tuple):
+                            b = ("tag", s.rv.j["vidx"], inner)      # Poll::Ready(Some(..)): the payload's own tag travels along
+                if b is None and s.rv.k == "use" and s.rv.ops and s.rv.ops[0].place is not None and not s.rv.ops[0].place.is_local() \
+                        and s.rv.ops[0].place.local in self.flags and len(s.rv.ops[0].place.proj) == 2 \
+                        and isinstance(s.rv.ops[0].place.proj[0], dict) and "dc" in s.rv.ops[0].place.proj[0]:
+                    outer = val[self.flags.index(s.rv.ops[0].place.local)]
+                    if isinstance(outer, tuple) and len(outer) == 3:
+                        b = outer[2]        # `(p as Ready).0`: the payload's tag
                 if b is None and self.hook is not None:
                     b = self.hook(blk.idx, si, s)
                 if b is None and s.place.local in self.pinned:
@@ -524,7 +535,7 @@ class Analyzer(object):
             elif "f" in p:
                 e = self._field(e, p["n"])
             elif "dc" in p:
-                e = ("variant", e, p["dc"])
+                e = self._variant(e, p["dc"])
             elif "idx" in p or "cidx" in p:
                 e = ("index", e)
             elif "sub_from" in p:
@@ -532,6 +543,35 @@ class Analyzer(object):
             else:
                 pass
         return e
+
+    def _variant(self, e, name):
+        """e viewed as enum variant `name`; over a merge of literally constructed values only the alternatives that ARE that
+        variant remain (`match x { Some(v) => .. }` where x = phi(Some(a) | None | Some(b)))"""
+        if e[0] == "phi":
+            keep = []
+            for x in e[1]:
+                y = x
+                while y[0] in ("ref", "deref"):
+                    y = y[1]
+                if y[0] == "agg" and "::" in y[1] and not y[1].startswith(("closure", "coroutine")) and y[1].split("::")[-1] != name \
+                        and self._is_enum_variant_ctor(y[1]):
+                    continue    # an aggregate of a different variant of the enum: this alternative cannot be viewed as `name`
+                keep.append(self._variant(x, name))
+            if keep:
+                return self._phi(keep)
+        return ("variant", e, name)
+
+    def _is_enum_variant_ctor(self, ctor):
+        """ctor is `<enum path>::<Variant>` (Option::None, Result::Err, user enums), not a struct path"""
+        base = ctor.rsplit("::", 1)[0]
+        last = base.split("::")[-1]
+        if last in ("Option", "Result", "Poll", "ControlFlow"):
+            return True
+        if self.prog is not None:
+            a = self.prog.adts.get(base)
+            if a is not None and a.get("kind") == "Enum":
+                return True
+        return False
 
     def _field(self, e, name):
         if e == ("env",) and self._canon:
@@ -965,9 +1005,16 @@ class Analyzer(object):
             return (e[1], labels)
         if dty == "bool":
             neg = False
-            while e[0] == "unop" and e[1] == "Not":
-                e = e[2]
-                neg = not neg
+            for _ in range(8):
+                if e[0] == "unop" and e[1] == "Not":
+                    e = e[2]
+                    neg = not neg
+                elif e[0] == "call" and short(e[1]).endswith("PartialEq::ne") and len(e[3]) == 2:
+                    # `a != b` is reported as the test `a == b` with the edge labels exchanged
+                    e = ("call", e[1][:-2] + "eq", (e[2][:-2] + "eq") if e[2] and e[2].endswith("::ne") else e[2]) + tuple(e[3:])
+                    neg = not neg
+                else:
+                    break
             T, F = ("false", "true") if neg else ("true", "false")
             for v, tb in t.arms:
                 labels.setdefault(tb, []).append(T if v else F)
